@@ -96,8 +96,36 @@ def run(tier):
         inner = r.choice([x for x in regexes if not info[x]["nullable"]])
         prog = program_for(arms, r.choice(SUBJECTS), ngroups, nested=inner)
         cases += A.both_modes("c10n-%d" % k, prog, 1)
+    # `$k` names group k of the arm's own regex: beyond its groups it is an error, also inside a nested scan whose enclosing
+    # arm has more groups (validated against the machine, and the run must fail when such an arm is executed)
+    beyond = {}
+    bk = 0
+    for re_, subj in [("a", "a"), ("(a)|(b)", "ab"), ("x(y)?", "xyx"), ("(\\w)(\\w)?", "abc"), ("[a-z]+", "ab cd")]:
+        re_ = re_.replace("\\\\", "\\")
+        if re_ not in ngroups:
+            continue
+        g = ngroups[re_]
+        for extra in (1, 2, 7):
+            stmts = [A.node(A.var("n")), A.attrn(A.var("n"), A.attr("ok", A.rcap(g)), A.attr("bad", A.rcap(g + extra)))]
+            prog = A.file([A.stanza("(module) @_m ", [A.scan(A.string(subj), (re_, stmts))])])
+            for c in A.both_modes("c10x-%d" % bk, prog, 1):
+                beyond[c["id"]] = True
+                cases.append(c)
+            bk += 1
+        inner = [A.node(A.var("m")), A.attrn(A.var("m"), A.attr("outer-group", A.rcap(g + 1)))]
+        if g >= 1:
+            prog = A.file([A.stanza("(module) @_m ", [A.scan(A.string(subj), (re_, [A.scan(A.rcap(0), ("[a-z]", inner))]))])])
+            for c in A.both_modes("c10x-%d" % bk, prog, 1):
+                beyond[c["id"]] = True
+                cases.append(c)
+            bk += 1
     run.add_cases("c10", cases)
     run.classify_all()
+    for case, res, cl in run.classified:
+        if beyond.get(case.get("id")) and case.get("outcome", {}).get("status") == "ok":
+            payload = X.replay_payload(PROP, case, res, cl)
+            payload["detail"] = "an arm reads a capture group beyond the groups of its own regular expression and the run succeeds"
+            V.violation(case["id"] + "-beyond", payload, {"observed": "ok", "scan": "group-beyond"})
     stats2 = {"behaviours": len(behaviours), "replayed": 0, "rejected_nullable": 0, "runtime_empty": 0, "iterations": 0}
     nontrivial = 0
     for case, res, cl in run.classified:
